@@ -119,6 +119,9 @@ func zzCompare(a, b zzObs, what string) {
 	rt.Assert(a.edges == b.edges, what+": graph edges (all versions, timestamps, weights, properties) preserved")
 }
 
+// zzFaulty is set by harnesses that inject file-system faults (administrative operations may then fail).
+var zzFaulty bool
+
 var zzPairs = [][2]string{{"a", "b"}, {"b", "a"}, {"a", "a"}}
 
 // zzOp performs one symbolically selected engine operation (index i0 exists from the prelude).
@@ -164,11 +167,11 @@ func zzOp(e *Engine, keys [2]string, allowAdmin bool) {
 		e.VUnlink("i0", p[0], p[1], "r", "", rt.IntRange("hard", 0, 1) == 1)
 	case 9:
 		err := e.SaveSnapshot()
-		rt.Assert(err == nil, "SaveSnapshot succeeds")
+		rt.Assert(err == nil || zzFaulty, "SaveSnapshot succeeds")
 		rt.Reach("snapshot")
 	case 10:
 		err := e.RewriteAOF()
-		rt.Assert(err == nil, "RewriteAOF succeeds")
+		rt.Assert(err == nil || zzFaulty, "RewriteAOF succeeds")
 		rt.Reach("rewrite")
 	}
 }
